@@ -27,6 +27,9 @@ def reading_valued_names(fn: ast.FunctionDef):
     names = set()
     for n in ast.walk(fn):
         if isinstance(n, ast.Assign) and isinstance(n.value, ast.Call) and call_name(n.value) in READING_SOURCES:
+            # `self._indicators.get(name)` looks an Indicator object up in the registry, not a reading
+            if call_name(n.value) == "get" and isinstance(n.value.func, ast.Attribute) and "_indicators" in ast.unparse(n.value.func.value) and "sub_indicators" not in ast.unparse(n.value.func.value) and not ast.unparse(n.value.func.value).endswith(".indicators"):
+                continue
             for t in n.targets:
                 if isinstance(t, ast.Name):
                     names.add(t.id)
@@ -169,28 +172,47 @@ def check_resolver_shape(res: Result, repo):
     """reading_by_candle: dotted -> nested field; else candle attribute if not None; else exact key in indicators, then sub_indicators"""
     rule = "R-CONTRACT"
     rbc = repo.func("hexital.utils.candles", "reading_by_candle")
-    for fn in (rbc, repo.func("hexital.utils.candles", "_nested_indicator")):
-        for n in ast.walk(fn.node):
+    mod = repo.module("hexital.utils.candles")
+    resolvers = [rbc] + ([mod.functions["_nested_indicator"]] if "_nested_indicator" in mod.functions else [])
+
+    def closure_nodes(fn):
+        """nodes of the function and of the same-module helpers it calls (helpers a refactoring introduced)"""
+        seen, todo, out = set(), [fn], []
+        while todo:
+            f = todo.pop()
+            if f.name in seen:
+                continue
+            seen.add(f.name)
+            for n in ast.walk(f.node):
+                out.append((f, n))
+                if isinstance(n, ast.Call) and isinstance(n.func, ast.Name) and n.func.id in mod.functions and n.func.id not in ("reading_by_candle", "_nested_indicator", "reading_by_index"):
+                    todo.append(mod.functions[n.func.id])
+        return out
+
+    for fn in resolvers:
+        nodes = closure_nodes(fn)
+        for f, n in nodes:
             if isinstance(n, ast.Compare) and any(isinstance(o, (ast.In, ast.NotIn)) for o in n.ops):
                 rhs = ast.unparse(n.comparators[0])
                 if rhs in ("key", "name") and ast.unparse(n.left) in ("name", "key", "main_name"):
-                    res.fail(rule, finding("C20", rule, fn, n, "reading names are matched by substring, not by equality"))
-        keycmp = [n for n in ast.walk(fn.node) if isinstance(n, ast.Compare) and ast.unparse(n.left) == "key"]
-        for n in keycmp:
+                    res.fail(rule, finding("C20", rule, f, n, "reading names are matched by substring, not by equality"))
+        keycmp = [(f, n) for f, n in nodes if isinstance(n, ast.Compare) and ast.unparse(n.left) == "key"]
+        for f, n in keycmp:
             if all(isinstance(o, ast.Eq) for o in n.ops):
                 res.ok(rule, {"helper": fn.name, "site": norm_construct(n), "why": "exact key match"})
             else:
-                res.fail(rule, finding("C20", rule, fn, n, "key comparison is not equality"))
+                res.fail(rule, finding("C20", rule, f, n, "key comparison is not equality"))
     # order: indicators before sub_indicators in both resolvers
-    for fn in (rbc, repo.func("hexital.utils.candles", "_nested_indicator")):
-        order = [n.attr for n in ast.walk(fn.node) if isinstance(n, ast.Attribute) and n.attr in ("indicators", "sub_indicators")]
+    for fn in resolvers:
+        order = [n.attr for f, n in closure_nodes(fn) if isinstance(n, ast.Attribute) and n.attr in ("indicators", "sub_indicators")]
         first_ind = order.index("indicators") if "indicators" in order else None
         first_sub = order.index("sub_indicators") if "sub_indicators" in order else None
         if first_ind is not None and first_sub is not None:
             res.ok(rule, {"helper": fn.name, "lookup": "indicators and sub_indicators both searched"})
         else:
             res.fail(rule, finding("C20", rule, fn, fn.node, "resolver no longer searches both reading dicts", construct=f"{fn.name}: dict lookups"))
-    if any(call_name(c) == "_nested_indicator" for c in calls_in(rbc.node)) and any(call_name(c) == "getattr" for c in calls_in(rbc.node)):
+    dotted = any(call_name(c) == "_nested_indicator" for c in calls_in(rbc.node)) or any(isinstance(n, ast.Call) and call_name(n) == "split" for _, n in closure_nodes(rbc))
+    if dotted and any(isinstance(n, ast.Call) and call_name(n) == "getattr" for _, n in closure_nodes(rbc)):
         res.ok(rule, {"helper": "reading_by_candle", "why": "dotted names go to _nested_indicator; candle fields via getattr"})
     else:
         res.fail(rule, finding("C20", rule, rbc, rbc.node, "reading_by_candle no longer resolves dotted names / candle fields", construct="reading_by_candle: dotted + getattr"))
@@ -243,7 +265,7 @@ def run(repo, tier) -> Result:
             res.ok("R-EFFECT", {"accessor": f"{cls}.{nm}", "effect_set": []})
     # R-TRUTH on accessors and resolvers
     scope: List[FuncInfo] = [repo.method(m, c, n) for m, c, n in ACCESSORS]
-    for fn in ("reading_by_index", "reading_by_candle", "_nested_indicator", "reading_count", "reading_period", "candles_sum"):
+    for fn in [x for x in ("reading_by_index", "reading_by_candle", "_nested_indicator", "reading_count", "reading_period", "candles_sum") if not (x.startswith("_") and x not in repo.module("hexital.utils.candles").functions)]:
         scope.append(repo.func("hexital.utils.candles", fn))
     for f in scope:
         sites = truthiness_sites(f.node)
@@ -272,6 +294,15 @@ def run(repo, tier) -> Result:
         inner = [r for r in all_rets if r in list(ast.walk(loops[0]))]
         last = rc.node.body[-1]
         shape = len(inner) == 1 and ast.unparse(inner[0].value) == counter and isinstance(last, ast.Return) and ast.unparse(last.value).replace(" ", "") == f"len({rc.params[0]})" and rc.node.body.index(loops[0]) == len(rc.node.body) - 2 and all(not isinstance(x, (ast.If, ast.Return)) for x in rc.node.body[: rc.node.body.index(loops[0])])
+    # the same count written with itertools.takewhile:  sum(1 for _ in takewhile(lambda c: <reading of c> is not None, reversed(candles)))
+    tw = [c for c in calls_in(rc.node) if call_name(c) == "takewhile" and len(c.args) == 2 and isinstance(c.args[0], ast.Lambda) and isinstance(c.args[1], ast.Call) and call_name(c.args[1]) == "reversed" and ast.unparse(c.args[1].args[0]) == rc.params[0]]
+    if tw and not shape:
+        body = tw[0].args[0].body
+        pred_ok = isinstance(body, ast.Compare) and len(body.ops) == 1 and isinstance(body.ops[0], ast.IsNot) and isinstance(body.comparators[0], ast.Constant) and body.comparators[0].value is None and isinstance(body.left, ast.Call) and call_name(body.left) == "reading_by_candle"
+        counted = any(isinstance(n, ast.Call) and call_name(n) in ("sum", "len") for n in ast.walk(rc.node))
+        n_rets = len([n for n in ast.walk(rc.node) if isinstance(n, ast.Return)])
+        shape = pred_ok and counted and n_rets == 1
+        tests = tests or ([body] if pred_ok else [])
     if tests and revs and shape:
         res.ok("R-CONTRACT", {"helper": "reading_count", "why": "counts trailing candles until the first `is None`"}, nontrivial="reading_count")
     else:
